@@ -39,10 +39,33 @@ ASSUMPTIONS = [
     "index lists and masks are exercised by the implementation-side oracle only",
     "without stored coefficients a non-zero origin calibrates with the documented default polynomial {0, 1} (x - o)",
     "the window of a tag / multi-tag / feature read is taken from the DataView the implementation returns "
-    "(computing it is C08's subject); view windows with negative start and surplus view indices (C06) are not generated",
+    "(computing it is C08's subject)",
 ]
 TRUSTED_EXTRA = ["numpy.polynomial.polynomial.polyval is modelled as its documented Horner loop; h5py selection "
                  "semantics as a row-major gather"]
+
+# (F) anchor fingerprints — budget steering only (DESIGN 2.3): a changed hash is neither an alarm nor a tie,
+# it doubles the quick correspondence budget
+ANCHORS = {
+    "nixio/data_array.py": {"_read_data": "e0cec47ff1b457d0", "polynom_coefficients": "d7c531796d9ec725",
+                            "expansion_origin": "7b96ebea7ae5eeb0"},
+    "nixio/util/util.py": {"apply_polynomial": "864ca2484ced393a", "check_attr_type": "ca867a6ddee28c6a"},
+    "nixio/data_view.py": {"__init__": "09c7372ec9e74543", "_read_data": "309a3fa4d9c8303a",
+                           "_transform_coordinates": "4ac7056dc3691b70", "_expand_user_slices": "9d2db724a93ff4de"},
+    "nixio/data_set.py": {"__array__": "c2196c70266ca071", "__getitem__": "366a4419c930506b",
+                          "_read_data": "055f75cc8e035ef2"},
+}
+
+
+def changed_anchors():
+    out = []
+    for rel, want in ANCHORS.items():
+        got = core.func_fingerprint(rel, set(want))
+        for name, h in want.items():
+            if got.get(name) != h:
+                out.append("%s:%s" % (rel, name))
+    return out
+
 
 DTYPES = ["uint8", "uint16", "uint32", "uint64", "int8", "int16", "int32", "int64", "float32", "float64", "bool"]
 U = Fraction(1, 2 ** 53)
@@ -548,7 +571,13 @@ def gen_window(rng, shape, invalid=False):
         win.append([s, e])
     if invalid and shape:
         k = rng.randrange(len(shape))
-        win[k][1] = shape[k] + rng.randint(1, 2)
+        r = rng.random()
+        if r < 0.6:
+            win[k][1] = shape[k] + rng.randint(1, 2)           # beyond the extent
+        elif r < 0.8:
+            win[k][0] = -rng.randint(1, 2)                      # negative start
+        else:
+            win[k] = [win[k][1] + 1, win[k][1]] if win[k][1] + 1 <= shape[k] else [1, 0]   # negative extent
     return win
 
 
@@ -591,13 +620,11 @@ def gen_case(rng, profile):
             if earlier and rng.random() < 0.3:      # read again through a view handle made earlier
                 prev = rng.choice(earlier)
                 win, via, q = prev[1], prev[3]["via"], 1.0
-                if any(w[1] > d for w, d in zip(win, shape)):
+                if any(w[1] > d or w[0] < 0 or w[1] < w[0] for w, d in zip(win, shape)):
                     q = 0.1
             wshape = [w[1] - w[0] for w in win] if (win is not None and q >= 0.12) else list(shape)
             mal = rng.random() < 0.1
             uix = gen_index(rng, wshape, mal)
-            if uix is not None and len(uix) > len(shape):
-                uix = uix[:len(shape)]          # surplus view indices are C06's subject
             rd = rng.choice(["array", "none"]) if uix is None else rng.choice(["getitem", "bare"])
             if uix is None and rng.random() < 0.4:
                 uix, rd = [[None, None, None]], "bare"          # view[:]
@@ -631,15 +658,20 @@ def op_tag(op, out):
         t += "." + op[3].get("used", op[3].get("via", "?"))
     if "err" in out:
         t += "!" + out["err"]
+    elif op[0] in ("read", "view") and isinstance(out.get("ok"), dict):
+        r = out["ok"]
+        t += "+empty" if not r["vals"] else "+single" if len(r["vals"]) == 1 else ""
     return t
 
 
 def correspondence(ctx):
     rng = ctx.rng
     cases = list(core.load_corpus(PROP))
-    n_exact = ctx.budget(850, 8000)
-    n_float = ctx.budget(300, 3000)
-    n_big = ctx.budget(120, 1200)
+    moved = changed_anchors()
+    scale = 2 if (moved and ctx.quick()) else 1
+    n_exact = scale * ctx.budget(850, 8000)
+    n_float = scale * ctx.budget(300, 3000)
+    n_big = scale * ctx.budget(120, 1200)
     for _ in range(n_exact):
         cases.append(gen_case(rng, "exact"))
     for _ in range(n_float):
@@ -672,6 +704,10 @@ def correspondence(ctx):
             dist[tg] = dist.get(tg, 0) + 1
             if op[0] in ("read", "view"):
                 classes[cls] = classes.get(cls, 0) + 1
+                if "ok" in io:
+                    kind = ("calibrated" if (mo.get("ok") or {}).get("coeffs") or
+                            frac((mo.get("ok") or {}).get("origin") or "0/1") != 0 else "uncalibrated")
+                    classes[kind] = classes.get(kind, 0) + 1
                 if ("ok" in io and "ok" in mo and io["ok"]["dtype"] == "float64" and c["dtype"] != "float64"
                         and io["ok"]["vals"]):
                     seen.add(core.canon([c["dtype"], c["shape"], op[:3], mo["ok"].get("coeffs"),
@@ -693,7 +729,8 @@ def correspondence(ctx):
                     "(float64, non-empty), distinct by (dtype, shape, op, calibration, values)",
             "samples": samples,
             "distribution": {"cases": len(cases), "ops": dist, "read_value_classes": classes, "dtypes": dtypes,
-                             "profiles": {"exact": n_exact, "float": n_float, "big": n_big}},
+                             "profiles": {"exact": n_exact, "float": n_float, "big": n_big},
+                             "anchors_changed": moved},
             "disagreements": disagreements, "exhaustive": False}
 
 
@@ -842,19 +879,21 @@ def oracle_case(ctx, case):
                         elif arg[0] == "seq":
                             ref.coeffs = [Fraction(float(frac(c))) for c in arg[1]]
                         else:
-                            f = Failure("a bare number was accepted as coefficient list",
-                                        {"case": shrink_case(case, k), "op": op}, "accepted", "refused or a list",
-                                        "DataArray.polynom_coefficients")
+                            # the property does not say what assigning a bare number means: whatever the
+                            # getter reports afterwards is the calibration the reads must follow
+                            ref.coeffs = [np_to_frac(c) for c in s.da.polynom_coefficients]
                     else:
                         if arg is None:
                             ref.origin = None
                         elif arg[0] == "num":
                             ref.origin = np_to_frac(py_origin_arg(arg))
                         else:
-                            f = Failure("a non-number was accepted as expansion origin",
-                                        {"case": shrink_case(case, k), "op": op}, "accepted", "TypeError",
-                                        "DataArray.expansion_origin")
-                f = f or check_getters(s, ref, case, k) or check_raw(s, ref, case, k)
+                            o_now = s.da.expansion_origin       # undefined input accepted: follow the getter
+                            try:
+                                ref.origin = None if o_now is None else np_to_frac(o_now)
+                            except (TypeError, ValueError):
+                                break
+                f = check_raw(s, ref, case, k) or check_getters(s, ref, case, k)
             elif name == "read":
                 how = op[2] if len(op) > 2 else "getitem"
                 try:
@@ -922,7 +961,7 @@ def oracle_case(ctx, case):
                 f = check_raw(s, ref, case, k)
             elif name == "reopen":
                 s.reopen()
-                f = check_getters(s, ref, case, k) or check_raw(s, ref, case, k)
+                f = check_raw(s, ref, case, k) or check_getters(s, ref, case, k)
             elif name == "raw":
                 f = check_raw(s, ref, case, k)
             elif name in ("coeffs", "origin"):
